@@ -6,8 +6,10 @@ for l in open('/verif/properties.jsonl'):
     p = json.loads(l)
     if p['id'] == pid:
         break
-wt = '/tmp/mut/%s' % pid
-out = '/tmp/mut/%s.out' % pid
+import os
+root = os.environ.get('MUT_ROOT', '/tmp/mut')
+wt = '%s/%s' % (root, pid)
+out = '%s/%s.out' % (root, pid)
 print(f"""You are helping test a verification effort by playing the role of a careless-but-plausible developer.
 
 The project is abhinavsingh/proxy.py (pure-Python HTTP/HTTPS forward & reverse proxy and web server). You have your
